@@ -280,6 +280,24 @@ theorem C05_level_history (st : List (ℝ × BU ℝ)) (ops : List LvOp) :
     simp only [lvRun, hst, List.map_cons]
     exact ⟨ih.1, by rw [ih.2]⟩
 
+/-! ## Unit environments -/
+
+/-- Opening and closing a unit environment restores `UNIT_TYPES` exactly, whichever
+    conversion classes its units name — built-in ones included. -/
+theorem C05_env_restores_unit_types (types defs : List String) :
+    envClose (envOpen types defs).1 (envOpen types defs).2 = types := by
+  obtain ⟨rec', he, hn⟩ := open_inv types defs types [] (by simp) List.nodup_nil
+  simp only [envOpen, he]
+  exact close_reverse types rec' hn
+
+
+/-- … hence every conversion after the environment is decided by the same classes in the
+    same order as before it. -/
+theorem C05_conversions_unchanged_by_environment (T : Tables) (defs : List String) :
+    (unitTypes { T with unitTypes := envClose (envOpen T.unitTypes defs).1 (envOpen T.unitTypes defs).2 }
+      : List (Rule ℝ)) = unitTypes T := by
+  simp only [unitTypes, C05_env_restores_unit_types]
+
 /-! ## Non-vacuity -/
 
 section examples
